@@ -70,14 +70,36 @@ OPS = [
 STMT = re.compile(r'^\s*(self\.|[a-z_][\w.]*\.)[a-z_]\w*(::<[^>]*>)?\(.*\);\s*$')
 
 
+VARIANT = re.compile(r'\b([A-Z][A-Za-z0-9]+)::([A-Z][A-Za-z0-9]+)\b')
+ENUMS = {}
+
+
+def scan_enums(src_root):
+    """Enum::Variant spellings used anywhere in the non-test sources, grouped by enum name"""
+    for root, dirs, files in os.walk(src_root):
+        for fn in files:
+            if fn.endswith('.rs') and fn != 'tests.rs':
+                for mo in VARIANT.finditer(open(os.path.join(root, fn), encoding='utf-8').read()):
+                    ENUMS.setdefault(mo.group(1), set()).add(mo.group(2))
+
+
 def mutants_of(path, rel):
     lines = open(path, encoding='utf-8').read().split('\n')
     out = []
+    rnd = random.Random(hash(rel) & 0xffff)
     in_test = False
+    skip_next = False
     for i, l in enumerate(lines):
         s = l.strip()
         if s.startswith('#[cfg(test)]'):
+            nxt = next((x.strip() for x in lines[i + 1:] if x.strip()), '')
+            if nxt.endswith(';'):          # `#[cfg(test)] mod tests;` -- a declaration, the tests live in another file
+                skip_next = True
+                continue
             in_test = True
+        if skip_next:
+            skip_next = False
+            continue
         if in_test or not s or s.startswith('//') or s.startswith('#[') or s.startswith('use ') or s.startswith('pub use '):
             continue
         code = l.split('//')[0] if '"' not in l else l
@@ -89,6 +111,31 @@ def mutants_of(path, rel):
                 new = code[:mo.start()] + rep + code[mo.end():]
                 if new != l:
                     out.append({'file': rel, 'line': i + 1, 'op': kind, 'from': l.strip(), 'to': new.strip(), 'new_line': new})
+        # a sibling variant of the same enum (in a pattern: another case is matched; in an expression: another value)
+        for mo in VARIANT.finditer(code):
+            if code[:mo.start()].count('"') % 2 == 1:
+                continue
+            sib = sorted(ENUMS.get(mo.group(1), set()) - {mo.group(2)})
+            for other in rnd.sample(sib, min(2, len(sib))):
+                new = code[:mo.start(2)] + other + code[mo.end(2):]
+                out.append({'file': rel, 'line': i + 1, 'op': 'variant', 'from': l.strip(), 'to': new.strip(), 'new_line': new})
+        # two arguments swapped
+        for mo in re.finditer(r'\((&?[a-z_][\w.]*(?:\(\))?), (&?[a-z_][\w.]*(?:\(\))?)\)', code):
+            if mo.group(1) != mo.group(2) and code[:mo.start()].count('"') % 2 == 0:
+                new = code[:mo.start()] + '(%s, %s)' % (mo.group(2), mo.group(1)) + code[mo.end():]
+                out.append({'file': rel, 'line': i + 1, 'op': 'swap-args', 'from': l.strip(), 'to': new.strip(), 'new_line': new})
+        # a condition negated
+        mo = re.match(r'^(\s*(?:\} else )?if )(?!let\b)(.+)( \{\s*)$', code)
+        if mo:
+            new = mo.group(1) + '!(' + mo.group(2) + ')' + mo.group(3)
+            out.append({'file': rel, 'line': i + 1, 'op': 'negate-if', 'from': l.strip(), 'to': new.strip(), 'new_line': new})
+        # two adjacent statements swapped (evaluation order)
+        if i + 1 < len(lines) and l.rstrip().endswith(';') and lines[i + 1].rstrip().endswith(';') and \
+                len(l) - len(l.lstrip()) == len(lines[i + 1]) - len(lines[i + 1].lstrip()) and not lines[i + 1].strip().startswith('//') \
+                and not s.startswith('let ') or (i + 1 < len(lines) and s.startswith('let ') and lines[i + 1].strip().startswith('let ')
+                                                 and l.rstrip().endswith(';') and lines[i + 1].rstrip().endswith(';')):
+            out.append({'file': rel, 'line': i + 1, 'op': 'swap-statements', 'from': l.strip(), 'to': lines[i + 1].strip() + ' / ' + l.strip(),
+                        'new_line': lines[i + 1] + '\n' + l, 'drop_next': True})
         if STMT.match(l) and 'debug_assert' not in l and 'assert' not in l:
             out.append({'file': rel, 'line': i + 1, 'op': 'delete-statement', 'from': l.strip(), 'to': '', 'new_line': ''})
     return out
@@ -155,6 +202,7 @@ def main():
             print('BASELINE NOT QUIET for', c, '- stopping')
             return 2
     # mutants
+    scan_enums(os.path.join(R, 'src'))
     muts = []
     for root, dirs, files in os.walk(os.path.join(R, 'src')):
         for fn in files:
@@ -182,6 +230,8 @@ def main():
         orig = open(p, encoding='utf-8').read()
         lines = orig.split('\n')
         lines[m['line'] - 1] = m['new_line']
+        if m.get('drop_next'):
+            del lines[m['line']]
         open(p, 'w', encoding='utf-8').write('\n'.join(lines))
         rec = {k: m[k] for k in ('file', 'line', 'op', 'from', 'to')}
         try:
